@@ -33,34 +33,80 @@ Proof.
   apply Forall2_eq in Hf. subst. now symmetry.
 Qed.
 
+Lemma unchanged_ok_sound k : unchanged_ok k = true -> i_plain k = true -> i_after k = Some (i_in k).
+Proof.
+  unfold unchanged_ok. intros H Hp. rewrite Hp in H. cbn [negb orb] in H.
+  destruct (i_after k) as [a|]; [|discriminate]. cbn in H. apply lines_eqb_eq in H. now subst.
+Qed.
+
+Lemma indexed_ok_sound k out : indexed_ok k out = true -> i_tbi k = true /\ i_fetch k = Ok (data_lines out).
+Proof.
+  unfold indexed_ok. rewrite andb_true_iff. intros [H1 H2]. split; [exact H1|now apply res_lines_eqb_ok].
+Qed.
+
+(* sorted mode on a .hap file: either the run was not observed, or a coordinate
+   lies beyond what a .tbi can hold and the run failed, or it returned normally
+   with a complete, accepted and indexed file *)
 Lemma holds_index_sorted_sound k :
   i_sort k = true -> wf_file (i_in k) = true -> holds_index k = true ->
   i_obs k = Err E_Unobserved \/
+  (range_okb (i_in k) = false /\ exists e, i_obs k = Err e) \/
   exists out, i_obs k = Ok out
     /\ Permutation (records (i_in k)) (records out)
     /\ (forall l, In l out -> match l with LX _ _ _ _ _ => False | _ => True end)
     /\ tabix_okb out = true
+    /\ i_tbi k = true
     /\ i_fetch k = Ok (data_lines out)
     /\ (i_plain k = true -> i_after k = Some (i_in k)).
 Proof.
   intros Hs Hw. unfold holds_index. rewrite Hs, Hw. destruct (i_obs k) as [out|e].
-  2: { intros E. apply Z.eqb_eq in E. subst. now left. }
-  rewrite !andb_true_iff. intros [[[[H1 H2] H3] H4] H5]. right. exists out. split; [reflexivity|].
+  2: { intros E. apply orb_true_iff in E. destruct E as [E|E].
+       - apply Z.eqb_eq in E. subst. now left.
+       - right. left. apply negb_true_iff in E. split; [exact E|now exists e]. }
+  rewrite !andb_true_iff. intros [[[[H1 H2] H3] H4] H5]. right. right. exists out. split; [reflexivity|].
   split; [now apply perm_eqb_item|]. split.
   - intros l Hl. rewrite forallb_forall in H2. specialize (H2 l Hl). destruct l; try exact I. discriminate.
-  - split; [exact H3|]. split; [now apply res_lines_eqb_ok|].
-    intros Hp. rewrite Hp in H5. cbn [negb orb] in H5. destruct (i_after k) as [a|]; [|discriminate].
-    cbn in H5. apply lines_eqb_eq in H5. now subst.
+  - split; [exact H3|]. destruct (indexed_ok_sound _ _ H4) as [H6 H7].
+    split; [exact H6|]. split; [exact H7|]. now apply unchanged_ok_sound.
 Qed.
 
-Lemma holds_index_nosort_sound k :
-  i_sort k = false -> tabix_okb (i_in k) = true -> holds_index k = true ->
-  i_obs k = Ok (i_in k)
-  /\ i_fetch k = Ok (data_lines (i_in k))
-  /\ (i_plain k = true -> i_after k = Some (i_in k)).
+(* in particular, when every coordinate fits: the run succeeded *)
+Lemma holds_index_sorted_total k :
+  i_sort k = true -> wf_file (i_in k) = true -> range_okb (i_in k) = true -> holds_index k = true ->
+  i_obs k = Err E_Unobserved \/ exists out, i_obs k = Ok out /\ i_tbi k = true /\ i_fetch k = Ok (data_lines out).
 Proof.
-  intros Hs Ht. unfold holds_index. rewrite Hs, Ht. rewrite !andb_true_iff. intros [[H1 H2] H3].
-  split; [now apply res_lines_eqb_ok|]. split; [now apply res_lines_eqb_ok|].
-  intros Hp. rewrite Hp in H3. cbn [negb orb] in H3. destruct (i_after k) as [a|]; [|discriminate].
-  cbn in H3. apply lines_eqb_eq in H3. now subst.
+  intros Hs Hw Hr H. destruct (holds_index_sorted_sound k Hs Hw H) as [E|[[E _]|[out [E1 [_ [_ [_ [E2 [E3 _]]]]]]]]].
+  - now left.
+  - congruence.
+  - right. exists out. auto.
+Qed.
+
+(* --no-sort, whatever the input: a normal return is a verbatim, indexed copy; an
+   error only when tabix cannot take the file as it is *)
+Lemma holds_index_nosort_sound k :
+  i_sort k = false -> holds_index k = true ->
+  i_obs k = Err E_Unobserved \/
+  (tabix_accepts (i_in k) = false /\ exists e, i_obs k = Err e) \/
+  (i_obs k = Ok (i_in k)
+   /\ i_tbi k = true
+   /\ i_fetch k = Ok (data_lines (i_in k))
+   /\ (i_plain k = true -> i_after k = Some (i_in k))).
+Proof.
+  intros Hs. unfold holds_index. rewrite Hs. destruct (i_obs k) as [out|e].
+  2: { intros E. apply orb_true_iff in E. destruct E as [E|E].
+       - apply Z.eqb_eq in E. subst. now left.
+       - right. left. apply negb_true_iff in E. split; [exact E|now exists e]. }
+  rewrite !andb_true_iff. intros [[H1 H2] H3]. right. right.
+  apply lines_eqb_eq in H1. subst out. destruct (indexed_ok_sound _ _ H2) as [H4 H5].
+  split; [reflexivity|]. split; [exact H4|]. split; [exact H5|]. now apply unchanged_ok_sound.
+Qed.
+
+(* the case the property speaks of: tabix can take the file, so the run must succeed *)
+Lemma holds_index_nosort_accepted k :
+  i_sort k = false -> tabix_accepts (i_in k) = true -> holds_index k = true ->
+  i_obs k = Err E_Unobserved \/
+  (i_obs k = Ok (i_in k) /\ i_tbi k = true /\ i_fetch k = Ok (data_lines (i_in k))
+   /\ (i_plain k = true -> i_after k = Some (i_in k))).
+Proof.
+  intros Hs Ht H. destruct (holds_index_nosort_sound k Hs H) as [E|[[E _]|E]]; [now left|congruence|now right].
 Qed.
